@@ -13,7 +13,7 @@ EXTENDS Integers, Sequences, FiniteSets, TLC, Json, CSV, IOUtils
 CONSTANT MaxDepth
 
 Kinds  == {"throw", "div", "builtin", "nargs", "index", "notcallable", "forin", "slice", "selector", "setindex", "setselector", "constuse", "constcall", "foldmixed", "foldcall"}
-Styles == {"stmt", "assign", "retplus", "closure", "recur", "module", "method", "bare", "baremod", "inblock", "tryfin", "mutual", "recur2", "callback", "callback2",
+Styles == {"stmt", "assign", "retplus", "closure", "recur", "module", "method", "bare", "baremod", "inblock", "tryfin", "mutual", "recur2", "callback", "callback2", "callbacksel",
            "ifcond", "forcond", "ternary", "argument", "index"}
 Blanks == {0, 1, 3}
 
@@ -36,6 +36,8 @@ CallLine(st, g) == CASE st = "stmt" -> L("callstmt", g, "")
                      \* the statement that called the Go function is the call statement of the function still active
                      [] st = "callback" -> L("callcb", g, "")
                      [] st = "callback2" -> L("callcb2", g, "")
+                     \* the Go function is reached through a selector call (host.cbcall(f): another call instruction)
+                     [] st = "callbacksel" -> L("callcbsel", g, "")
                      [] OTHER -> L("callstmt", g, "")
 
 \* chain f1 -> f2 -> ... -> fd, fd fails; definitions first (innermost first), then the call in main
